@@ -98,6 +98,13 @@ def tables(protocol, message):
     # control-flow facts: always measured on the running code (an AST reading is kept as a comment)
     flow = _probe_flow(protocol, t)
     t.update(flow)
+    # the framing model never consults MAX_MSG_LENGTH: does dataReceived mention it at all?
+    try:
+        src = textwrap.dedent(inspect.getsource(cls.dataReceived))
+        t['dataReceivedUsesMaxMsgLength'] = any(isinstance(n, ast.Attribute) and n.attr == 'MAX_MSG_LENGTH'
+                                                for n in ast.walk(ast.parse(src)))
+    except (OSError, SyntaxError) as e:
+        raise TranslatorError('source of dataReceived not available: %r' % (e,))
     t['how'] = how
 
     codes = [c for c, n in message._hcode.items() if n == 'unix_fds']
@@ -379,6 +386,8 @@ def emit(repo):
     out.append('def handoffRejoinsRest : Bool := %s' % ('true' if t['handoffRejoinsRest'] else 'false'))
     out.append('/-- measured: the remainder length check does not apply to message bytes behind the final line -/')
     out.append('def remainderCheckAfterLoop : Bool := %s' % ('true' if t['remainderCheckAfterLoop'] else 'false'))
+    out.append('/-- AST: `dataReceived` mentions `MAX_MSG_LENGTH` (the framing model does not consult it) -/')
+    out.append('def dataReceivedUsesMaxMsgLength : Bool := %s' % ('true' if t['dataReceivedUsesMaxMsgLength'] else 'false'))
     out.append('')
     out.append('-- how each constant was obtained: ' + ', '.join('%s=%s' % kv for kv in sorted(t['how'].items())))
     out.append('')
